@@ -155,7 +155,7 @@ def arm_region(b, tests, name):
 TRY_BRANCH = "::branch"
 
 
-def result_switch(b, call_bb, maxsteps=16):
+def result_switch(b, call_bb, maxsteps=24):
     """Find the switch that decides on the result of the call ending call_bb.
     Returns dict(sw=bb, ok=[blocks], fail=[blocks], kind) or None.
     Handles: `?` (Try::branch -> discriminant switch), `match`/`if let` (discriminant switch),
@@ -217,6 +217,14 @@ def result_switch(b, call_bb, maxsteps=16):
             d = tt["def"]
             if any(a in alias for a in args) and d.endswith("Try::branch"):
                 alias = {tt["d"]["l"]}; refalias = set(); is_branch = True
+                if tt["t"] < 0:
+                    return None
+                cur = tt["t"]; continue
+            # shape-preserving adaptors keep Some/None (Ok/Err): go on with their result
+            if args and (args[0] in alias or args[0] in refalias) and re.search(
+                    r"^std::option::Option::<.*>::(cloned|copied|as_ref|as_mut|as_deref|as_deref_mut|take)(::<.*>)?$|^std::result::Result::<.*>::(as_ref|as_mut|map_err|copied|cloned)(::<.*>)?$|^<std::(option::Option|result::Result)<.*> as std::clone::Clone>::clone$",
+                    tt["f"] or "") and not is_branch:
+                alias = {tt["d"]["l"]}; refalias = set()
                 if tt["t"] < 0:
                     return None
                 cur = tt["t"]; continue
